@@ -12,7 +12,7 @@
 import codecs
 import z3
 from symx.values import SNum, SBytes, SInt, isc, mknum, Unsupported
-from symx.explore import check
+from symx.explore import check, PathBudgetExceeded
 from ref import iso_tables as T, decoder
 from . import common, selection as S, datapath as D
 from .common import Result, Batch
@@ -532,10 +532,13 @@ def check_sequence(res, p, qrs, want, kw, to_input):
         v = q.version
         if kw.get('version') is not None:
             res.concrete('requested-version', v == kw['version'], lambda: _viol(res, p, to_input, 'version', f'symbol {i} has version {v}'))
-        ex2, rpaths = common.explore(lambda: D.read_back(q.matrix, v), max_paths=32, assume=p.pc, catch=(decoder.DecodeError,))
+        try:
+            ex2, rpaths = common.explore(lambda: D.read_back(q.matrix, v), max_paths=32, assume=p.pc, catch=(decoder.DecodeError,))
+        except PathBudgetExceeded:
+            rpaths = []
         if len(rpaths) != 1 or rpaths[0].status != 'ok':
             bad = [rp for rp in rpaths if rp.status != 'ok']
-            r, m = check((bad[0] if bad else rpaths[0]).pc)
+            r, m = check((bad[0] if bad else rpaths[0]).pc if rpaths else p.pc)
             res.obligations += 1
             res.violation('undecodable', f'symbol {i}: {bad[0].value if bad else "reader forks on data-dependent control fields"}',
                           to_input(m) if m is not None else {'fn': 'none'})
